@@ -249,7 +249,7 @@ def get_cycle_vector_from_waveform(imf, cycle_start='peaks'):
     """
     ASSUMING LOCALLY SYMMETRICAL SIGNALS!!
     """
-    imf = ensure_1d_with_singleton([imf], ['imf'], 'get_cycle_vector_from_waveform')
+    imf = ensure_2d([imf], ['imf'], 'get_cycle_vector_from_waveform')
 
     if cycle_start == 'desc':
         print("'desc' is Not implemented yet")
@@ -1273,6 +1273,7 @@ class Cycles:
 
         if dtype is not None:
             if dtype is int:
+                cycle_vals = cycle_vals.copy()  # Don't work in place
                 cycle_vals[np.isnan(cycle_vals)] = -1
             cycle_vals = cycle_vals.astype(dtype)
 
